@@ -53,6 +53,9 @@ func runOne(t *testing.T, c *Case, work, sched *choice.Source, out *wproto.Out, 
 	out.Count("sim_steps", int64(st.Steps))
 	out.Count("preemptions", int64(st.Preempt))
 	out.Count("solid_calls", int64(st.Calls))
+	if st.ProcsFaults > 0 {
+		out.Count("fault.gomaxprocs_changed_mid_call", int64(st.ProcsFaults))
+	}
 	out.Count(fmt.Sprintf("workers.%02d", st.Workers), 1)
 	if st.Tasks > int(out.Counters["max_tasks"]) {
 		out.Counters["max_tasks"] = int64(st.Tasks)
